@@ -766,8 +766,24 @@ def judge_drain(sched, conns, obs, rec):
                               f"closed {'never' if when is None else f'{when - t0:.3f}s later'}"))
                 else:
                     rec.count("b:idle-closed-at-once")
-        elif ty in ("fresh", "half"):
-            rec.count(f"b:recorded:{ty}-closed-at-once:{bool(c.closing_after_settle)}")
+        elif ty == "fresh":
+            # accepted, nothing sent yet: no request is being handled on it, so it is idle for the server just like a
+            # keep-alive connection between requests - closed at once, not held until the final force-close
+            if not c.open_at_instant:
+                rec.count("b:precondition-failed:fresh-connection-not-open-at-instant")
+            else:
+                rec.count("b:fresh-idle-connections")
+                if not c.closing_after_settle:
+                    why = "held-while-on_shutdown-runs" if obs["osd_running_at_settle"] else "no-on_shutdown-pending"
+                    when = c.pipe.b.close_time
+                    v.append((f"drain:fresh-idle-connection-not-closed-at-once:{why}",
+                              f"freshly accepted connection {c.idx} (no byte sent, no request being handled) still open after the loop went idle "
+                              f"at the shutdown instant; closed {'never' if when is None else f'{when - t0:.3f}s later'}"))
+                else:
+                    rec.count("b:fresh-closed-at-once")
+        elif ty == "half":
+            # partial request head at the instant: observed only (grey) - the statement does not say which side it is on
+            rec.count(f"b:grey:partial-head-closed-at-once:{bool(c.closing_after_settle)}:osd-running={obs['osd_running_at_settle']}")
         outcomes = []
         for r in c.reqs:
             rid = r["rid"]
